@@ -54,12 +54,41 @@ CLAIMED = {
          'lines of the writer loop (idle sleep, rate-limit wait, mid-pass), x strategies x MIN_TIMESTAMP_LAG x limits '
          'x MAX_UPDATES_PER_SECOND_ON_SHUTDOWN; bounded liveness: the writer exits within 1 h virtual.',
     ref='6 (C04)'),
+  'C05': dict(
+    technique=TECH + 'routing invariants evaluated on the booted relay after every fault-driven membership change '
+    '(connections fail and recover, dynamic router removes / re-adds ring members, stopClient) over ring breakpoints, a '
+    'seeded stripe of the 65 536 positions (full sweeps in the thorough tier) and every routed datapoint',
+    text='consistent-hashing / fast-hashing / aggregated variants, carbon_ch and fnv1a_ch, 1..8 destinations incl. '
+         'several instances per server, RF 1..4, DIVERSE_REPLICAS on/off, DYNAMIC_ROUTER on/off: after each membership '
+         'event every tested key gets min(RF, eligible) configured, pairwise distinct (and server-distinct) '
+         'destinations, stable across two calls. Positions are reached through a brute-force pre-image table built '
+         'with a reference hash.',
+    ref='6 (C05)'),
+  'C06': dict(
+    technique=TECH + 'the relay\'s ring is compared after every membership event of the simulated fault history with '
+    'an independent implementation of the published carbon_ch / fnv1a_ch ring replaying the same history, with the '
+    'ring before the event, and with a freshly built ring',
+    text='Clauses: compatibility with the published algorithm for the same add/remove history; minimal disruption '
+         '(preference order before vs after, affected node deleted/inserted); history independence vs a fresh ring '
+         '(one known finding: collision bumping). Test positions: breakpoints of both rings +-1, seeded stripe, full '
+         '65 536 sweeps in a share of thorough runs.',
+    ref='6 (C06), 9.7'),
+  'C07': dict(
+    technique=TECH + 'booted carbon-relay against simulated peers: connect refused / timeout, reset with unread data, '
+    'stalled peers (transport back-pressure), flapping, timer-tie order, dynamic-router removal, orderly stop; history '
+    'oracle accepted-sequence vs bytes written per destination',
+    text='Per destination: written (self-metrics removed) is always a prefix of accepted; each self-metric written at '
+         'most once; queue within the hard limit; every discard counted and only at the limit; removal re-routes '
+         'queued datapoints (conservation per event); stop closes only after the queue is flushed; bounded liveness '
+         'after faults stop. One known finding (fractional hard limit).',
+    ref='6 (C07)'),
   'C09': dict(
     technique=TECH + 'bounded-liveness oracle at quiescence over seeded interleavings of the storing thread, the '
     'writer thread and receiver connect/disconnect events around the cache watermarks',
     text='Cache side (world B): flow control on, tiny caches, pause/resume cycles with connection churn, hot '
          'pre-emption in events.py / protocols.py; at quiescence a cache below its low watermark must leave no '
-         'receiver paused. The relay side is added when world C is built.',
+         'receiver paused. Relay side (world C): 1..4 destinations, all proportions of queue size / watermark / batch '
+         'size, hot keys, destinations that never come back; the release condition is evaluated after every event.',
     ref='6 (C09)'),
   'C10': dict(
     technique=TECH + 'bound checked at every lock release and thread switch, refusal signalling checked against the '
@@ -68,6 +97,21 @@ CLAIMED = {
          'scheduling point; a refused store fires the overflow signal exactly once and changes neither contents nor '
          'key set; a duplicate timestamp is accepted when full. One known finding (fractional hard limit).',
     ref='6 (C10), 9.8'),
+  'C15': dict(
+    technique=TECH + 'two-party simulation: the relay\'s real client protocol writes to a simulated connection whose '
+    'peer re-segments the bytes into a real listener protocol; connection resets and stalls happen mid-run',
+    text='Random 64-bit float patterns, boundary magnitudes, +-inf, -0.0, 64-bit ints, fractional timestamps, unicode '
+         'names, batch sizes 1..500, pickle and line protocols: what the downstream listener decodes equals what the '
+         'relay accepted (pickle exact; line: int(ts), |dv| <= 5e-11 or 1 ulp). One known finding (double rounding).',
+    ref='6 (C15)'),
+  'C16': dict(
+    technique=TECH + 'generated relay-rules.conf / aggregation-rules.conf loaded by the booted relay; reference '
+    'evaluators written from the example files; evaluated on every routed datapoint and on a name-grammar sweep after '
+    'each fault-driven membership change',
+    text='rules router: first match, continue chain, default last, intersected with the currently configured set; '
+         'aggregation-aware routers: every input of an aggregate is routed to the hash destinations of the aggregate '
+         'name, unmatched names by their own name.',
+    ref='6 (C16)'),
   'C17': dict(
     technique=TECH + 'seeded search over line-level interleavings of the storing and draining threads on the real '
     'MetricCache; oracle = strategy clauses evaluated against the reference cache at the choose point',
